@@ -36,6 +36,7 @@ TWINS = [
     T("separator-blank-line-aware-both-eols", MBOX, "MBOX_FROM_PATTERN = re.compile(rb\"^From \\S+.*\\d{4}\\r?\\n\", re.MULTILINE)", "MBOX_FROM_PATTERN = re.compile(rb\"(?:\\A|(?<=\\n\\n)|(?<=\\n\\r\\n))From \\S+.*\\d{4}\\r?\\n\")"),
     T("mbox-attachment-loop-names-swapped", MBOX, "        filename = part.get_filename()\n        content_disposition = str(part.get(\"Content-Disposition\", \"\"))\n", "        content_disposition = str(part.get(\"Content-Disposition\", \"\"))\n        filename = part.get_filename()\n"),
     T("addresses-name-decoded-in-loop-var", MBOX, "            result.append(EmailAddress(name=decode_header_value(name), address=addr))", "            decoded_name = decode_header_value(name)\n            result.append(EmailAddress(name=decoded_name, address=addr))"),
+    T("attachment-default-name", EM, '        filename = attachment.get("filename") or "attachment"', '        filename = attachment.get("filename") or "unnamed"'),
 ]
 
 # --- seeded changes kept under /verif/seeded (sub-agents saw only the property text); each must be reported by the named rule
@@ -50,5 +51,7 @@ SEEDED = [
     ("C16-5", "C16-ROUTE"),
     ("C16-6", "C16-BYTES"),
     ("C16-7", "C16-BYTES"),
+    ("C16-8", "C16-SEP"),
+    ("C16-9", "C16-BYTES"),
 ]
 MUTANTS = list(MUTANTS) + [_P("seed-" + sid, _os.path.join(_SEEDS, sid, "patch.diff"), rule) for sid, rule in SEEDED if _os.path.exists(_os.path.join(_SEEDS, sid, "patch.diff"))]
